@@ -1,12 +1,140 @@
-/-! Model for property C02 (core-only: no Mathlib import, so the driver links). -/
+import OnetVerif.Model.Util
+/-! Model for property C02: what a handler or channel of a `TreeNodeInstance` may see.
+Anchors: `overlay.go` `Process` (the peer identity is taken from the envelope, i.e. from the
+connection, never from the wire message) and `TransmitMsg` (missing tokens are refused),
+`treenode.go` `aggregate`, `dispatchHandler`/`dispatchChannel` and `createValueAndVerify`.
+Core-only. -/
 namespace C02
 
+/-- a tree node: its `TreeNodeID` and the server hosting it (both abstracted to numbers) -/
+structure Node where
+  id     : Nat
+  server : Nat
+  deriving DecidableEq, Repr
+
+/-- a protocol message as the overlay hands it to the instance: registered type, the claimed
+sender's `TreeNodeID` (`From.TreeNodeID`), the identity the transport attached to the connection
+(`ProtocolMsg.ServerIdentity`, `none` only for local injection) and a payload tag -/
+structure Msg where
+  ty    : Nat
+  sender : Nat
+  peer  : Option Nat
+  val   : Nat
+  deriving DecidableEq, Repr
+
+/-- the receiving instance: the nodes of its tree in the order `Tree.Search` visits them, the id
+of its parent (`none` for the root), its number of children, the slice-registered types -/
+structure Inst where
+  nodes     : List Node
+  parent    : Option Nat
+  nChildren : Nat
+  agg       : Nat → Bool
+
+/-- `Tree.Search`: visits every node and keeps the last one whose id matches -/
+def search (nodes : List Node) (id : Nat) : Option Node :=
+  (nodes.filter (fun n => n.id == id)).getLast?
+
+/-- `createValueAndVerify` (treenode.go:426-448): the claimed sender must be a node of the tree and,
+when the transport named a peer, that node must be hosted by this peer. -/
+def verify (nodes : List Node) (m : Msg) : Option Node :=
+  match search nodes m.sender with
+  | none => none
+  | some n =>
+    match m.peer with
+    | none => some n
+    | some p => if n.server = p then some n else none
+
+/-- `dispatchHandler`/`dispatchChannel`: every element of the batch is verified; the first
+failure aborts the dispatch, nothing of the batch is delivered. -/
+def deliverBatch (nodes : List Node) : List Msg → Option (List (Node × Msg))
+  | [] => some []
+  | m :: b =>
+    match verify nodes m with
+    | none => none
+    | some n =>
+      match deliverBatch nodes b with
+      | none => none
+      | some r => some ((n, m) :: r)
+
+abbrev Queues := Nat → List Msg
+
+/-- `aggregate` (treenode.go:603-631) over these messages -/
+def aggregate (i : Inst) (q : Queues) (m : Msg) : Queues × Option (List Msg) :=
+  if (i.parent == some m.sender) || !i.agg m.ty then (q, some [m])
+  else
+    let msgs := q m.ty ++ [m]
+    if msgs.length = i.nChildren then (fun t => if t = m.ty then [] else q t, some msgs)
+    else (fun t => if t = m.ty then msgs else q t, none)
+
+/-- an envelope as it arrives at the overlay: the sender token may be missing altogether -/
+structure Wire where
+  ty     : Nat
+  sender : Option Nat
+  peer   : Option Nat
+  val    : Nat
+
+/-- what happens to one arriving envelope: `TransmitMsg` refuses a missing sender token, the
+instance aggregates and then verifies. Result: new queues and what the handler/channel receives
+(`none`: nothing). -/
+def receive (i : Inst) (q : Queues) (w : Wire) : Queues × Option (List (Node × Msg)) :=
+  match w.sender with
+  | none => (q, none)
+  | some s =>
+    let r := aggregate i q { ty := w.ty, sender := s, peer := w.peer, val := w.val }
+    (r.1, match r.2 with
+          | none => none
+          | some b => deliverBatch i.nodes b)
+
+/-- feeding a list of envelopes: everything the handlers/channels received, in order -/
+def run (i : Inst) (q : Queues) : List Wire → List (List (Node × Msg))
+  | [] => []
+  | w :: ws =>
+    let r := receive i q w
+    r.2.toList ++ run i r.1 ws
+
 namespace Drv
-/-- line-protocol driver state for C02 -/
-abbrev State := Unit
-def init : State := ()
-/-- one line in (tokens after the property prefix), new state and one line out -/
-def step (s : State) (_toks : List String) : State × String := (s, "bad-op")
+
+structure State where
+  inst : Inst := { nodes := [], parent := none, nChildren := 0, agg := fun _ => false }
+  q    : Queues := fun _ => []
+
+def init : State := {}
+
+def parseNodes (s : String) : Option (List Node) :=
+  if s = "-" then some [] else
+  (s.splitOn ",").mapM fun p =>
+    match p.splitOn ":" with
+    | [a, b] => do
+        let a ← a.toNat?
+        let b ← b.toNat?
+        pure { id := a, server := b }
+    | _ => none
+
+def optNat (s : String) : Option (Option Nat) :=
+  if s = "-" then some none else s.toNat?.map some
+
+/-- `cfg <nodes id:server,…> <parent id|-> <nChildren> <aggregated types>` and
+`msg <type> <claimed sender id|-> <peer server|-> <value>`; the reply to `msg` lists what was
+delivered as `type/senderId@server/value,…` or `-`. -/
+def step (s : State) (toks : List String) : State × String :=
+  match toks with
+  | ["cfg", nodes, par, n, aggs] =>
+    match parseNodes nodes, optNat par, n.toNat?, Util.natList aggs with
+    | some ns, some p, some n, some l =>
+      ({ inst := { nodes := ns, parent := p, nChildren := n, agg := fun t => l.contains t }, q := fun _ => [] }, "ok")
+    | _, _, _, _ => (s, "bad-op")
+  | ["msg", t, snd, peer, v] =>
+    match t.toNat?, optNat snd, optNat peer, v.toNat? with
+    | some t, some snd, some peer, some v =>
+      let r := receive s.inst s.q { ty := t, sender := snd, peer := peer, val := v }
+      ({ s with q := r.1 },
+        match r.2 with
+        | none => "-"
+        | some b => if b.isEmpty then "-" else
+            ",".intercalate (b.map fun (n, m) => s!"{m.ty}/{n.id}@{n.server}/{m.val}"))
+    | _, _, _, _ => (s, "bad-op")
+  | _ => (s, "bad-op")
+
 end Drv
 
 end C02
